@@ -49,19 +49,16 @@ Theorem c12_clamp_respects_limit : forall bs mp tot per bs', 1 <= per -> mp <> 0
 Proof. exact clamp_limit. Qed.
 Print Assumptions c12_clamp_respects_limit.
 
-(* in terms of bound parameters (k per VALUES row): the limit is respected when no VALUES element
-   holds more than one of them ... *)
-Theorem c12_clamp_respects_limit_guarded : forall bs mp tot per k bs', 1 <= per -> mp <> 0 -> 0 <= k <= per ->
-  1 <= bs' -> clamp bs mp tot per = Ok bs' -> (tot - k) + bs' * k <= mp.
-Proof. exact clamp_limit_binds. Qed.
-Print Assumptions c12_clamp_respects_limit_guarded.
-(* ... finding C12-clamp-counts-elements: one element `coalesce(:a, :b, :c)`, page size 20000, limit
-   32700: the clamp leaves 20000 rows = 60000 parameters in one statement *)
-Theorem c12_clamp_respects_limit_refuted :
-  exists bs mp tot per k bs', 1 <= per /\ 1 <= bs /\ tot <= mp /\ per <= k /\
-    clamp bs mp tot per = Ok bs' /\ 1 <= bs' /\ (tot - k) + bs' * k > mp.
-Proof. exact clamp_limit_binds_refuted. Qed.
-Print Assumptions c12_clamp_respects_limit_refuted.
+(* in terms of bound parameters (k per VALUES row, any k): since commit e06ceea the divisor is
+   max(VALUES elements, bound parameters inside VALUES), so a statement never carries more than
+   max_params parameters (formerly finding C12-clamp-counts-elements) *)
+Theorem c12_clamp_respects_bind_limit : forall bs mp tot elems k bs', 1 <= elems -> mp <> 0 -> 0 <= k ->
+  1 <= bs' -> clamp bs mp tot (params_per_batch_expr elems k) = Ok bs' -> (tot - k) + bs' * k <= mp.
+Proof. exact clamp_limit_binds_fixed. Qed.
+Print Assumptions c12_clamp_respects_bind_limit.
+(* one element `coalesce(:a, :b, :c)`, page size 20000, limit 32700: 10900 rows = 32700 parameters *)
+Example c12_ex_clamp_multibind : clamp 20000 32700 3 (params_per_batch_expr 1 3) = Ok 10900.
+Proof. reflexivity. Qed.
 
 (* the slice-and-delete loop: for every size >= 1 and every list the chunks concatenate to the
    list, each holds 1..size elements and reports its own length as current_batch_size, all but the
@@ -250,21 +247,6 @@ Theorem c12_sorted_returning_refuted :
 Proof. exact sorted_returning_refuted. Qed.
 Print Assumptions c12_sorted_returning_refuted.
 
-(* finding C12-omitted-pk-assert: the compiler can select sentinel columns for which there is neither
-   a client-side value nor implicit-sentinel support ([sentinel_hyp] excludes exactly this): batching
-   is chosen, the first statement is executed, then `assert imv.sentinel_param_keys` fails *)
-Theorem c12_sentinel_without_keys_refuted :
-  exists (c : config) (rowspec : list (list Z)) (ps : list param),
-    (forall k x items, Permutation (map (db_row rowspec x) items) (fetch_db rowspec [] [] k x items)) /\
-    1 <= c_batch_size c /\ clamp_pre c /\ wf_config c /\ c_is_returning c = true /\ c_imv_sbo c = true /\
-    result_columns (c_flags c) = true /\
-    c_num_sentinel c = 1 /\ c_implicit c = false /\ c_has_keys c = false /\
-    let run := execute list_eqb (sent_of_param []) (sent_of_row 1) sort_key (ext_of [true])
-                       (fetch_db rowspec [] []) c ps in
-    o_result run = Raise AssertionError /\ length (o_executed run) = 1%nat.
-Proof. exact sentinel_without_keys_refuted. Qed.
-Print Assumptions c12_sentinel_without_keys_refuted.
-
 (* RETURNING without sentinel columns (sort_by_parameter_order off): exactly one row per parameter
    set, in some order *)
 Theorem c12_unsorted_one_row_per_param : forall (P K R X : Type) (key_eqb : K -> K -> bool)
@@ -325,7 +307,7 @@ Proof. exact list_eqb_spec. Qed.
 (* 5 parameter sets, page size 2, client-side integer key as sentinel, every statement's rows
    returned in reverse: three statements 2+2+1, rows back in parameter order *)
 Definition ex_cfg (nsc : Z) (implicit has_keys : bool) :=
-  mkConfig (mkFlags false true true true false false false false) 2 32700 2 2 true true nsc implicit has_keys false.
+  mkConfig (mkFlags false true true true false false false false) 2 32700 2 2 2 true true nsc implicit has_keys false.
 Definition ex_ps : list param :=
   [(0%nat, [7; 100]); (1%nat, [3; 101]); (2%nat, [9; 102]); (3%nat, [1; 103]); (4%nat, [5; 104])].
 Example c12_ex_explicit :
@@ -341,6 +323,18 @@ Example c12_ex_implicit :
                     (fetch_db [[0]; [1; 1]; [0]] [5; 4; 3; 2; 1] []) (ex_cfg 1 true false) ex_ps)
   = Ok [[1; 100; 1]; [2; 101; 2]; [3; 102; 3]; [4; 103; 4]; [5; 104; 5]].
 Proof. vm_compute. reflexivity. Qed.
+(* formerly finding C12-omitted-pk-assert: an omitted non-autoincrement integer key on SQLite.  Since
+   commit 56a4cbe the compiler reports no sentinel columns for it (sentinel_columns None, 0 sentinel
+   columns), the mode decision downgrades to one statement per parameter set and the rows come back
+   in parameter order.  (Sentinel columns without client-side values and without implicit support -
+   the configuration [sentinel_hyp] excludes - are no longer produced by the compiler.) *)
+Example c12_ex_omitted_pk_downgraded :
+  let c := mkConfig (mkFlags false true true true true false false false) 1000 32700 1 1 1 true true 0 false false false in
+  let out := execute list_eqb (sent_of_param []) (sent_of_row 0) sort_key (ext_of [true])
+                     (fetch_db [[0]; [1; 0]] [3; 2; 1] []) c [(0%nat, [100]); (1%nat, [101]); (2%nat, [102])] in
+  decide_mode (c_sbo c) (c_flags c) = (true, true) /\
+  o_result out = Ok [[1; 100]; [2; 101]; [3; 102]] /\ length (o_executed out) = 3%nat.
+Proof. vm_compute. repeat split; reflexivity. Qed.
 (* row count 0: no statement, no row *)
 Example c12_ex_empty :
   execute list_eqb (sent_of_param [0%nat]) (sent_of_row 1) sort_key (ext_of [true; true])
@@ -367,7 +361,7 @@ Proof. right. intros p q _ _. unfold ext_of. destruct p as [i [|a [|b t]]], q as
 (* an upsert whose SET clause holds a per-row bound parameter runs row-at-a-time: every row is
    computed with its own SET value (rows [id; new value]), here for rows that all existed before *)
 Example c12_ex_upsert_rowmode :
-  let c := mkConfig (mkFlags false true true true true true false true) 1000 32700 3 2 true false 0 false false false in
+  let c := mkConfig (mkFlags false true true true true true false true) 1000 32700 3 2 3 true false 0 false false false in
   fst (decide_mode (c_sbo c) (c_flags c)) = true /\
   o_result (execute list_eqb (sent_of_param []) (sent_of_row 0) sort_key (ext_of [true; true; false])
                     (fetch_db [[1; 0]; [4]] [] []) c [(0%nat, [7; 100; 41]); (1%nat, [3; 101; 42]); (2%nat, [9; 102; 43])])
